@@ -395,6 +395,28 @@ theorem C11_parent_spec (H : Heap) (U : List Obj) (hU : FinHeap H U) (hd : U.len
       rw [← hjq]
       exact List.getElem?_eq_getElem _
 
+/-- **The `+m:` start list** (`starts`, shared by model and specification), relationally: the
+source itself comes first; the other models follow exactly when the source is a model root. -/
+theorem C11_starts_spec (H : Heap) (src : Obj) :
+    (starts H src).head? = some src ∧
+    ∀ x, x ∈ starts H src ↔ x = src ∨ (H.parent src = none ∧ x ∈ H.extra) := by
+  simp only [starts]
+  cases hp : H.parent src with
+  | none => simp
+  | some p => simp
+
+/-- **What `*` reaches without a repetition** (`zeros`, shared by model and specification),
+relationally: later in a path the object itself; as the first element the object itself if the
+body can start locally (`parent(T)`, dots) and the model root if it can start with a navigation
+step. -/
+theorem C11_zeros_spec (H : Heap) (e : E) (first : Bool) (s t : St) :
+    t ∈ zeros H e first s ↔
+      (first = false ∧ t = s) ∨
+      (first = true ∧ ((e.startLocal = true ∧ t = s) ∨
+        (e.startRoot = true ∧ t = { s with o := root H s.o }))) := by
+  simp only [zeros]
+  cases first <;> cases e.startLocal <;> cases e.startRoot <;> simp
+
 /-! ## non-vacuity -/
 
 /-- root 0 with `a = [1, 2, 3]`; 1 = `A x`, 2 = `B x`, 3 = `A y` with `a = [4]`, `r = 2`;
